@@ -69,6 +69,7 @@ func runC11(c *Ctx) {
 
 	c.rule("C11.V2", "the backlog handed to a new subscriber ends where the live events begin: "+backlogBoundDoc, func() { c.backlogBound() })
 
+	c.rule("C11.P1", eventsUnlockedDoc, func() { c.eventsUnlocked() })
 	c.rule("C11.R1", registryOwnerDoc, func() { c.registryOwner() })
 
 	c.rule("C11.O1", backlogDoc, func() { c.backlogThenRegister() })
@@ -419,4 +420,43 @@ func (c *Ctx) registryOwner() {
 	st := c.fn("(*blockntfns.SubscriptionManager).Start")
 	g := equalIs("atomic.AddInt32(&m.started,1) vs 1", find(st, binops(eqOps, valIsAtomicOp("Add"), constIntIs(1))), true)
 	c.guarded(st, g, 1, "go subscriptionHandler", find(st, func(in ssa.Instruction) bool { _, ok := in.(*ssa.Go); return ok }), 1, gDominate)
+}
+
+const eventsUnlockedDoc = "one subscriber never stalls the others: block events are handed to the subscription manager (a rendezvous with its single handler goroutine) with no mutex of the block manager held; that handler also serves new subscriptions by calling NotificationsSinceHeight, which takes the tip mutexes, so an event sent under one of them deadlocks the handler against the block manager as soon as a subscription is requested during a batch"
+
+// eventsUnlocked: see eventsUnlockedDoc (C11.P1, also C17.P2).
+func (c *Ctx) eventsUnlocked() {
+	res := c.lockResults()
+	n := 0
+	var bad []string
+	var sites []ssa.Instruction
+	for _, fn := range c.P.Funcs {
+		if fn.Pkg == nil || fn.Pkg.Pkg.Path() != ir.ModPath {
+			continue
+		}
+		var es []emitSite
+		es = append(es, c.emitSites(fn, "onBlockConnected", "NewBlockConnected")...)
+		es = append(es, c.emitSites(fn, "onBlockDisconnected", "NewBlockDisconnected")...)
+		if len(es) == 0 {
+			continue
+		}
+		lr := res[fn]
+		for _, e := range es {
+			n++
+			sites = append(sites, e.in)
+			if lr == nil {
+				continue
+			}
+			var held []string
+			for k, mode := range lr.mustHold[e.in] {
+				held = append(held, k.String()+"("+mode+")")
+			}
+			sort.Strings(held)
+			if len(held) > 0 {
+				bad = append(bad, "the event at "+c.at(e.in)+" in "+c.nm(fn)+" is handed over with "+join(held)+" held")
+			}
+		}
+	}
+	sort.Strings(bad)
+	c.verdict(n >= 2 && len(bad) == 0, "neutrino.blockManager | block events are sent with no mutex held", "", fmt.Sprintf("%d emit site(s), none inside a critical section", n), join(bad)+fmt.Sprintf(" (%d emit sites)", n), c.ats(sites)...)
 }
